@@ -28,9 +28,9 @@ import inspect, warnings, numbers, contextlib
 import numpy as np
 
 PROP = 'C17'
-GENERATED = ['ParsDispatch', 'ParsRefs', 'ParsSimLevel', 'ParsTimePar']
+GENERATED = ['ParsDispatch', 'ParsRefs', 'ParsSimLevel', 'ParsTimePar', 'ParsModTime']
 DRIVER = 'Drivers/C17.lean'
-DRIVER_MODULES = ['StarsimModel.Model.Pars', 'StarsimModel.Model.ParsDeep', 'StarsimModel.Model.ParsRefs', 'StarsimModel.Generated.ParsRefs', 'StarsimModel.Model.ParsSim', 'StarsimModel.Generated.ParsSimLevel', 'StarsimModel.Model.ParsTime', 'StarsimModel.Generated.ParsTimePar', 'StarsimModel.Model.Proto']
+DRIVER_MODULES = ['StarsimModel.Model.Pars', 'StarsimModel.Model.ParsDeep', 'StarsimModel.Model.ParsRefs', 'StarsimModel.Generated.ParsRefs', 'StarsimModel.Model.ParsSim', 'StarsimModel.Generated.ParsSimLevel', 'StarsimModel.Model.ParsTime', 'StarsimModel.Generated.ParsTimePar', 'StarsimModel.Model.ParsModTime', 'StarsimModel.Generated.ParsModTime', 'StarsimModel.Model.Proto']
 RULE = ('exhaustive: every constructible class of ss.find_modules() x every parameter x 19 new-value kinds (direct update and '
         'constructor route), a probe module covering the remaining old kinds (full 23 x 19 table), unknown keys at 9 routes x '
         'sampled classes, 7 spellings x every registered name; seeded part: sentinel values, sampled classes for routes, '
@@ -577,6 +577,8 @@ def correspond(ctx):
     c17_simlevel.round4_cases(ctx, ask)
     from harness.props import c17_timepar
     c17_timepar.round5_cases(ctx, ask)
+    from harness.props import c17_modtime
+    c17_modtime.round6_cases(ctx, ask)
 
     # ---- (5) inputs copied -----------------------------------------------------------------------------------------
     def cb_copy(ml):
@@ -1718,6 +1720,8 @@ def search(ctx):
     c17_timepar.round5_search(ctx, targets)
     from harness.props import c17_spell
     c17_spell.search(ctx)      # every zoo configuration with a dict-spec spelling: module objects vs dict specs, identical simulations
+    from harness.props import c17_modtime
+    c17_modtime.search(ctx)    # round 6: timeline arguments (unit / dt) of modules and of the sim in every documented spelling, zoo-wide and per kind x frame
     # (a) applied or rejected: sampled over class x parameter x kind x route (exhaustive when something broke / thorough)
     pool = []
     for cls, probe in targets:
@@ -1827,6 +1831,9 @@ def replay(ctx, data):
     from harness.props import c17_spell
     r6 = c17_spell.replay(ctx, data)
     if r6 is not None: return r6
+    from harness.props import c17_modtime
+    r7 = c17_modtime.replay(ctx, data)
+    if r7 is not None: return r7
     k = data.get('kind')
     if k == 'apply':
         return bool(oracle_apply(resolve_cls(data['cls'], data.get('probe')), data['par'], data['nk'], data['tok'], data['route'], data.get('probe', False)))
